@@ -34,6 +34,11 @@ func main() {
 		defer close(colinearDone)
 		sec2DColinear(r)
 	}()
+	splitDone := make(chan struct{})
+	go func() {
+		defer close(splitDone)
+		secDecimateSplitAttempts(r)
+	}()
 	flipDone := make(chan struct{})
 	go func() {
 		defer close(flipDone)
@@ -55,6 +60,7 @@ func main() {
 	timed("secChains", func() { secChains(r) })
 	<-colinearDone
 	<-flipDone
+	<-splitDone
 	timed("secChains2D", func() { secChains2D(r) })
 
 	r.Note("section_wall_s", sectionWall)
